@@ -260,7 +260,7 @@ def run(tier):
     if tier == "quick":
         total, chunk, nprog, per_prog, olevels = 20000, 1250, 100, 20, (1,)
     else:
-        total, chunk, nprog, per_prog, olevels = 1000000, 5000, 2000, 20, (0, 1, 2)
+        total, chunk, nprog, per_prog, olevels = 300000, 5000, 400, 20, (0, 1, 2)
     chk.rule = ("model: Python str (code points). sweep: every scalar value U+0001..U+10FFFF (surrogates excluded) through utf8_char_to_string, ddp_char_to_string, "
                 "ddp_string_length, ddp_string_index, utf8_num_bytes/_char/indicated, utf8_string_to_char, equality with the literal, and inside the text a·X·€ through "
                 "concatenation, index, slice, char·text and replacement; encoding compared with an independent encoder; surrogates, U+110000..U+12FFFF, larger and negative values "
